@@ -14,19 +14,20 @@ LEVEL_TEXT = ("Machine-checked Coq theorems for all inputs: (1) the sign fix-up 
               "ConstDivisor forms equal Z.quot/Z.rem resp. the Euclidean quotient/remainder for every sign combination and "
               "magnitude, a zero divisor is the DivideBy0 panic, and these specifications satisfy a = q*b + r with the demanded "
               "sign/range of r (and are the unique such pair); (2) faithful word-list models (any word size w, any length) of "
-              "div_by_word_in_place, rem_by_word, div_by_dword_in_place (incl. the power-of-two shortcuts), the Knuth-D step "
-              "div_rem_highest_word and the whole schoolbook division equal floor division / remainder; every result of the "
-              "Burnikel-Ziegler recursion (small-quotient step with its add-back loop, same-length step, block loop), of the "
-              "algorithm switch, of normalisation + top-word quotient carry (div_rem_unshifted_in_place), of div_rem_large and "
-              "of the whole size dispatch of DivRem/Div for TypedRepr is the floor quotient and remainder (soundness for any "
-              "fuel, relative to the contracts of num-modular's primitives and of the multiplication kernel, which the "
-              "oracle's instance satisfies provably). The models are tied to the code by a correspondence run on every check.")
+              "div_by_word_in_place, rem_by_word, div_by_dword_in_place, rem_by_dword (incl. the power-of-two shortcuts), the "
+              "Knuth-D step div_rem_highest_word, the whole schoolbook division, the Burnikel-Ziegler recursion (small-quotient "
+              "step with its add-back loop, same-length step, block loop; fuel proved sufficient: at most 4 add-backs, depth < "
+              "quotient length), the THRESHOLD_SIMPLE switch, normalisation + top-word quotient carry "
+              "(div_rem_unshifted_in_place), div_rem_large, the size dispatch of DivRem/Div/Rem for TypedRepr and the "
+              "ConstDivisor paths of div_const.rs::repr (stored shift, Small x Single/Double arms, rem_dword/rem_large) all "
+              "return exactly the floor quotient and remainder - so ConstDivisor = plain division at word level - relative to "
+              "the contracts of num-modular's primitives and of the multiplication kernel, which the oracle's instance "
+              "satisfies provably (unconditional theorem for it). Models tied to the code by a correspondence run on every check.")
 LEVEL_NOTE = ("num-modular's reciprocal division primitives (div_rem_1by1/2by1/3by2/4by2/2by2) are section variables with their "
-              "contract (external crate, exercised by the run). mul::add_signed_mul (C01) enters the divide-and-conquer theorem as "
-              "a contract. That the fuel of the divide-and-conquer model suffices (at most 4 add-backs, recursion depth) is "
-              "compared on every run (an OutOfFuel answer would be a fidelity failure), not proved. rem_by_dword / "
-              "fast_rem_by_normalized_dword and the ConstDivisor word paths (div_const.rs::repr) are modelled and compared word "
-              "for word, their theorems are at value level. Trusted: Coq kernel, translator, extraction + FastZ.v, zarith, harness.")
+              "contract (external crate, exercised by the run). mul::add_signed_mul (C01) enters the divide-and-conquer theorems "
+              "as a contract. Memory scratch sizing (memory_requirement_exact) is not modelled. Primitive-typed operands "
+              "(u8..i128) and is_multiple_of_const are compared only. Trusted: Coq kernel, translator, extraction + FastZ.v, "
+              "zarith, harness.")
 TECHNIQUE = "Coq proof (sign tables regenerated from source; word-level algorithm models) + extracted-model correspondence run"
 RULE = ("cases = call form (every operator / trait / ownership variant / Assign twin is evaluated inside one case and must agree) x "
         "type pairing {UBig, IBig, UBig-IBig, IBig-UBig, ConstDivisor, primitives, is_multiple_of(_const)} x 4 sign combinations x "
@@ -37,9 +38,9 @@ RULE = ("cases = call form (every operator / trait / ownership variant / Assign 
         "divide-and-conquer kernels at lengths on both sides of THRESHOLD_SIMPLE. Division by zero in every form. Non-trivial = "
         "both operands non-zero and the oracle evaluated the Coq specification; distinct = distinct case texts.")
 EXPLANATION = ("Theorems in coq/props/C02.v (sign layer = spec for all signs; spec has the identity and is unique; word kernels, "
-               "Knuth D, whole schoolbook division = floor division; divide-and-conquer, algorithm switch, normalisation/top-word "
-               "carry, div_rem_large and the TypedRepr dispatch: every result is the floor quotient/remainder, relative to the "
-               "multiplication and num-modular contracts). Tie: tables regenerated from div_ops.rs each run; "
+               "Knuth D, whole schoolbook division, divide-and-conquer (sound and total), algorithm switch, normalisation/top-word "
+               "carry, div_rem_large, the TypedRepr dispatch and the ConstDivisor paths = floor division, relative to the "
+               "multiplication and num-modular contracts; unconditional for the extracted instance). Tie: tables regenerated from div_ops.rs each run; "
                "all other models compared word-for-word with the implementation (fidelity must be 100%).")
 TRUSTED_BASE = [
     "Coq 8.16.1 kernel",
